@@ -625,7 +625,7 @@ def sch_arms(ctx: Ctx) -> RuleResult:
                 covered.setdefault(x, kind)
             info = e.data["info"]
             if kind == "async":
-                direct = info.get("callee") in ctx.P.funcs and _returns_pool_future(ctx.P.funcs[info["callee"]])
+                direct = info.get("direct") is not None or (info.get("callee") in ctx.P.funcs and _returns_pool_future(ctx.P.funcs[info["callee"]]))
                 okw = (info["wrapped"] is not None or direct) and not info["awaited"]
                 r.ob(okw, {"async dispatch wrapped in": info["wrapped"], "wrapper returns the submission's future": direct,
                            "awaited in place": info["awaited"]})
@@ -1285,8 +1285,12 @@ def sch_taskdone(ctx: Ctx) -> RuleResult:
     """The task the scheduler tracks for an async-thread node completes only when the node function has completed."""
     r = RuleResult("SCH-TASKDONE")
     m = model(ctx)
-    callees = {info["callee"] for info in m.dispatch.values() if info["kind"] == "async"}
-    if not callees:
+    callees = {info["callee"] for info in m.dispatch.values() if info["kind"] == "async" and info.get("callee")}
+    n_direct = sum(1 for info in m.dispatch.values() if info["kind"] == "async" and info.get("direct") is not None)
+    if n_direct:
+        # run_in_executor(<the scheduler's pool>, ..) written in place: the tracked future IS the submission's future
+        r.ob(True, {"async dispatches submitted in place to the scheduler's pool": n_direct})
+    if not callees and not n_direct:
         raise Undecided("no async dispatch found")
     for q in sorted(callees):
         f = ctx.P.funcs[q]
